@@ -7,7 +7,20 @@ gate, unloadable YAML path) at every batch position; payload corner cases (empty
 
 Oracle: client-boundary history (enqueue call/return, add_done_callback completion events, Future.result /
 exception) against results computed beforehand by a direct run of each job's pipeline on its own payload.
-"Never completes" is decided by quiescence (vlib.jobq.Quiescence), never by a timeout.
+"Never completes" is decided by quiescence (vlib.jobq.Quiescence), never by a timeout; the 120 s per-batch watchdog
+only ever yields "inconclusive".
+
+Harness substitutions (all from outside, nothing under the repository is edited):
+  * orchestrator.job_queue is replaced after construction by a queue.Queue subclass (jobq.TapQueue) that counts the
+    master's get() calls and caps the hard-coded 0.2 s poll timeout at 2..20 ms (the original 0.2 s is kept for a
+    third of the small batches); worker_loop's poll_interval is its own parameter;
+  * master and workers each get a recording proxy (jobq.TransportTap) around the one shared in-memory transport;
+  * the name ``uuid`` in the queue_orchestrator namespace is shimmed so the id drawn by enqueue() is known;
+  * every party gets an explicit Logger (no logs/ directory is created).
+Schedule perturbation per batch: sys.setswitchinterval, seeded per-thread yields at LINE events, 0..3 "hot" lines
+where every thread pauses 0.3 ms, optionally one "slow" thread that pauses 0.1 ms at every LINE event.
+
+Debugging aids: C15_DEBUG=1 (one line per batch), C15_ONLY=i,j (run only these batch indices), C15_WATCHDOG=seconds.
 """
 from __future__ import annotations
 
